@@ -283,7 +283,7 @@ def _chunk_job(args):
         plan["seed"] = seed
         plan["index"] = idx
         plan["tier"] = tier
-        res = execute_guarded(world, plan)
+        res = execute_guarded(world, plan, opts.get("plan_timeout"))
         agg["evaluations"] += int(res.get("evaluations", 1))
         agg["steps"] += res.get("steps", 0)
         agg["sim_time"] += res.get("sim_time", 0.0)
@@ -455,7 +455,7 @@ def run_batch(modname, pid, tier, master, stages, workers, level="exploration",
         for start in range(0, st["n"], chunk):
             jobs.append((modname, pid, tier, master, list(range(base + start, base + min(st["n"], start + chunk))), deadline, opts))
         n_plans += st["n"]
-        hard_timeout = st["wall"] + 240
+        hard_timeout = st["wall"] + max(240, float(opts.get("plan_timeout", 0)) + 60)
         faulthandler.dump_traceback_later(hard_timeout + 60, exit=True)
         ev_before = total["evaluations"]
         with ProcessPoolExecutor(max_workers=workers, mp_context=ctx) as ex:
